@@ -10,7 +10,7 @@ RULE = ("Pipeline cases: 1-2 contigs (400-1200 bp), well separated variants of a
         "(60-350 bp, single or paired, soft clips, =/X CIGARs; boundaries never cut a variant, except that a sixth of the reads "
         "end or start inside the REF allele of a deletion/MNP their haplotype does not carry), depth 2-25 with "
         "--internal-downsampling drawn from 2..15 so that the cap binds; options --tag PS|HP, --only-snvs, --sample and "
-        "--chromosome subsets. Oracle: for every selected sample and every phase set of the output (decoded with pysam), "
+        "--chromosome subsets; in a quarter of the cases the reads are split over two alignment files with coinciding read names. Oracle: for every selected sample and every phase set of the output (decoded with pysam), "
         "the phased alleles equal the true haplotype pair or its swap, one choice per phase set; in the traced solver instances every "
         "read allele equals the allele of the haplotype the read was copied from, every read (pair) carries all heterozygous "
         "variants one of its alignments fully covers, and the optimal cost is 0. Non-trivial = at least "
@@ -30,6 +30,8 @@ def gen(draw):
             "chromosomes": draw(st.sampled_from([None, None] + [[c] for c in chroms])),
             "max_coverage": draw(st.sampled_from([2, 3, 4, 5, 8, 15, 15]))}
     case["opts"] = opts
+    # the reads may arrive in two alignment files whose read names coincide (names need only be unique within a file)
+    case["two_files"] = draw(st.integers(0, 3)) == 0
     # reads of a REF-carrying haplotype may end (after >= 2 bases) or start inside the REF allele of a deletion / MNP
     for sp in case["read_specs"]:
         if draw(st.integers(0, 5)) != 0:
@@ -158,13 +160,35 @@ class TruthPart:
         if "bam" not in paths:
             return
         o = case["opts"]
+        bams = [paths["bam"]]
+        file_of = {}
+        if case.get("two_files"):
+            # every second template goes to a second file and takes the name of the template before it
+            names = []
+            for r in reads:
+                if r["name"] not in names:
+                    names.append(r["name"])
+            alias = {n: (names[i - 1] if i % 2 else n) for i, n in enumerate(names)}
+            first = [r for r in reads if alias[r["name"]] == r["name"]]
+            second = [dict(r, name=alias[r["name"]]) for r in reads if alias[r["name"]] != r["name"]]
+            if first and second:
+                for r in reads:
+                    file_of[r["name"]] = (0 if alias[r["name"]] == r["name"] else 1, alias[r["name"]])
+                bams = [G.write_bam(case, first, os.path.join(d, "reads_a.bam")), G.write_bam(case, second, os.path.join(d, "reads_b.bam"))]
+                ctx.label("two-files-with-colliding-names")
         kw = {}
         if o["samples"]:
             kw["samples"] = list(o["samples"])
         if o["chromosomes"]:
             kw["chromosomes"] = list(o["chromosomes"])
-        out, trace = P.run_phase(d, paths["vcf"], [paths["bam"]], reference=paths["ref"], tag=o["tag"], only_snvs=o["only_snvs"],
+        out, trace = P.run_phase(d, paths["vcf"], bams, reference=paths["ref"], tag=o["tag"], only_snvs=o["only_snvs"],
                                  max_coverage=o["max_coverage"], **kw)
+        if file_of:
+            # give the solver's reads their generated names back: (file, name in that file) -> template
+            back = {v: k for k, v in file_of.items()}
+            for t in trace:
+                for r in t["reads"]:
+                    r["name"] = back.get((r["source_id"], r["name"]), r["name"])
         samples = o["samples"] or case["samples"]
         chroms = o["chromosomes"] or [c["name"] for c in case["contigs"]]
         n, types = check_truth(case, out, ctx, samples, chroms, o["only_snvs"])
